@@ -34,7 +34,8 @@ func (g *gen) add(term string, desc map[string]any, key string, nontrivial bool)
 	g.cf.Add(term)
 	desc["part"] = g.part
 	g.st.CaseIndex = append(g.st.CaseIndex, desc)
-	g.st.Case(key, nontrivial)
+	g.st.Case(term, nontrivial) // distinct = distinct case content (input, operations, reader script, observation)
+	g.st.Count("class." + strings.SplitN(key, "|", 2)[0])
 }
 
 func (g *gen) fail(desc map[string]any) {
@@ -673,8 +674,8 @@ func main() {
 	stats := fs.String("stats", "stats.json", "stats file")
 	_ = fs.Parse(os.Args[2:])
 
-	g := &gen{r: vx.NewRng(*seed), part: os.Args[1]}
-	g.st = vx.NewStats("distinct (op kinds, mutation/reader kind, outcome class); non-trivial = program of >= 2 primitives or a length-prefixed/sequence primitive, stream op with a length prefix or under a non-trivial reader")
+	g := &gen{r: vx.NewRng(*seed*0x2545F4914F6CDD1D + 11).Fork(), part: os.Args[1]} // NewRng(s+1) is NewRng(s) shifted by one draw: decorrelate
+	g.st = vx.NewStats("distinct (input bytes, operations, reader script, observation); non-trivial = program of >= 2 primitives or a length-prefixed/sequence primitive, stream op with a length prefix or under a non-trivial reader")
 	g.cf = &vx.CasesFile{
 		Header: "From Coq Require Import ZArith NArith List.\nFrom Verif.C02_Prims Require Import Model Stream Corr.\nImport ListNotations.\n",
 		Type:   "case",
